@@ -6,7 +6,9 @@ Decides (structure only):
     violation, and allowed_numbers is only ever used in membership tests / forwarded;
  M3 every int()/float() conversion of literal text sits under a ValueError handler;
  M4 the violation builders report the literal's own line and interpolate the tested value;
- M6 every documented exempt position has its predicate reachable from that language's flagging decision.
+ M6 every documented exempt position has its predicate reachable from that language's flagging decision;
+ M7 the literal collectors visit every child of every node (traversal completeness);
+ M8 the int/float discrimination of literal text does not mistake radix-prefixed literals for floats.
 Not decided: completeness of the exemption predicates on arbitrary programs; hex/suffix parsing values.
 """
 
@@ -159,5 +161,35 @@ def check(run, ctx):
                 run.ok(M6, f"{lang}:{what}", f"{fq.rsplit('.', 1)[-1]} reachable from {entry.name}")
             else:
                 run.finding(M6, f"{lang}:{what}", f"unreachable:{fq.rsplit('.', 1)[-1]}", f"the documented exemption '{what}' is not applied in the {lang} branch: {fq} is not reachable from {entry.name}", entry.loc)
+    from . import shared
+
+    M7 = run.rule("M7", "traversal completeness: the literal collectors visit every child of every node (no subtree is pruned)", floor=3,
+                  decides="each numeric literal is seen, wherever it is placed (template substitutions, nested scopes, arguments, ...)")
+    for rec in shared.collector_walkers(ctx, prefixes=(PKG,)):
+        (run.ok(M7, rec["func"], rec["detail"]) if rec["ok"] else run.finding(M7, rec["func"], "pruned-walk", f"{rec['func']}: {rec['detail']}: literals below such a node are never reported", rec["loc"]))
+    for rec in shared.visitor_methods(ctx, prefix=PKG):
+        (run.ok(M7, rec["func"], rec["detail"]) if rec["ok"] else run.finding(M7, rec["func"], "no-generic-visit", f"{rec['func']}: {rec['detail']}", rec["loc"]))
+    for lang, mod in (("typescript", "typescript_analyzer"), ("rust", "rust_analyzer")):
+        f = next(x for x in repo.funcs_in(f"{PKG}.{mod}.") if x.name == "find_numeric_literals")
+        ok = any(is_call_named(c, "_collect_numeric_literals") and c.args and isinstance(c.args[0], ast.Name) and c.args[0].id == f.node.args.args[1].arg for c in ast.walk(f.node))
+        (run.ok(M7, f"{lang} find_numeric_literals", "collection starts at the root node") if ok else run.finding(M7, f"{mod}.find_numeric_literals", "root", "collection does not start at the root node it is given", f.loc))
+    M8 = run.rule("M8", "literal text is classified int-vs-float by node kind, or by a text test that exempts radix-prefixed literals (0x.. may contain the digit e)", floor=2,
+                  decides="hex/octal/binary literals are reported like any other integer literal")
+    for mod in ("typescript_analyzer", "rust_analyzer"):
+        f = next(x for x in repo.funcs_in(f"{PKG}.{mod}.") if x.name == "_extract_numeric_value")
+        tests = [n.test for n in ast.walk(f.node) if isinstance(n, ast.If) and any(is_call_named(x, "int") or is_call_named(x, "float") for s in n.body for x in ast.walk(s))]
+        run.require(bool(tests), f"{mod}._extract_numeric_value: int/float decision not found")
+        t = tests[0]
+        by_kind = any(isinstance(x, ast.Attribute) and x.attr == "type" for x in ast.walk(t))
+        e_test = any(isinstance(x, ast.Compare) and isinstance(x.ops[0], (ast.In, ast.NotIn)) and isinstance(x.left, ast.Constant) and x.left.value in ("e", "E") for x in ast.walk(t))
+        radix = any(is_call_named(x, "startswith") and any(isinstance(c, ast.Constant) and str(c.value).lower() == "0x" for a in x.args for c in ast.walk(a)) for x in ast.walk(t))
+        if by_kind and not e_test:
+            run.ok(M8, f"{mod}._extract_numeric_value", f"decided by node kind: {norm(t)}")
+        elif e_test and radix:
+            run.ok(M8, f"{mod}._extract_numeric_value", "exponent test exempts radix-prefixed literals")
+        elif e_test:
+            run.finding(M8, f"{mod}._extract_numeric_value", f"exponent-test:{norm(t)}", f"`{norm(t)}` sends every literal containing the letter e to float(): hex literals such as 0xE0 or 0x1e raise ValueError there and are silently dropped", f.loc)
+        else:
+            run.undecided(M8, f"{mod}._extract_numeric_value", f"unrecognised decision {norm(t)}")
     run.extra["call_resolution"] = f"{cg.n_resolved}/{cg.n_calls}"
     return __doc__
